@@ -75,6 +75,7 @@ impl Service {
             final(self).events == old(self).events, final(self).all_events == old(self).all_events,
             final(self).subscriptions == old(self).subscriptions,
             final(self).cookie == old(self).cookie, final(self).object_cookie == old(self).object_cookie,
+            forall|e: u32| #![trigger final(self).subs(e)] #![trigger old(self).subs(e)] final(self).subs(e) == old(self).subs(e),
     //@end
 
     //@fn broker/src/broker/service.rs Service::remove_function_call
@@ -85,6 +86,7 @@ impl Service {
             final(self).events == old(self).events, final(self).all_events == old(self).all_events,
             final(self).subscriptions == old(self).subscriptions,
             final(self).cookie == old(self).cookie, final(self).object_cookie == old(self).object_cookie,
+            forall|e: u32| #![trigger final(self).subs(e)] #![trigger old(self).subs(e)] final(self).subs(e) == old(self).subs(e),
     //@end
 
     //@fn broker/src/broker/service.rs Service::subscribe_event
@@ -127,6 +129,7 @@ impl Service {
             final(self).subscriptions == old(self).subscriptions,
             final(self).function_calls == old(self).function_calls,
             final(self).cookie == old(self).cookie, final(self).object_cookie == old(self).object_cookie,
+            forall|e: u32| #![trigger final(self).subs(e)] #![trigger old(self).subs(e)] final(self).subs(e) == old(self).subs(e),
     //@end
 
     //@fn broker/src/broker/service.rs Service::unsubscribe_all_events
@@ -137,6 +140,7 @@ impl Service {
             final(self).subscriptions == old(self).subscriptions,
             final(self).function_calls == old(self).function_calls,
             final(self).cookie == old(self).cookie, final(self).object_cookie == old(self).object_cookie,
+            forall|e: u32| #![trigger final(self).subs(e)] #![trigger old(self).subs(e)] final(self).subs(e) == old(self).subs(e),
     //@end
 
     //@fn broker/src/broker/service.rs Service::subscribe
@@ -145,6 +149,7 @@ impl Service {
             final(self).events == old(self).events, final(self).all_events == old(self).all_events,
             final(self).function_calls == old(self).function_calls,
             final(self).cookie == old(self).cookie, final(self).object_cookie == old(self).object_cookie,
+            forall|e: u32| #![trigger final(self).subs(e)] #![trigger old(self).subs(e)] final(self).subs(e) == old(self).subs(e),
     //@end
 
     //@fn broker/src/broker/service.rs Service::unsubscribe
@@ -153,6 +158,7 @@ impl Service {
             final(self).events == old(self).events, final(self).all_events == old(self).all_events,
             final(self).function_calls == old(self).function_calls,
             final(self).cookie == old(self).cookie, final(self).object_cookie == old(self).object_cookie,
+            forall|e: u32| #![trigger final(self).subs(e)] #![trigger old(self).subs(e)] final(self).subs(e) == old(self).subs(e),
     //@end
 }
 
